@@ -60,6 +60,11 @@ Theorem C20_src_queue_whole_calls : forall calls,
   pputs s = O /\ pgets s = O /\ wake s = length (items s).
 Proof. exact src_queue_whole_calls. Qed.
 
+Theorem C20_src_select_pass_is_model : forall rr s e, rstep_sel rr s e = rstep s e.
+Proof. exact rstep_sel_eq. Qed.
+Theorem C20_src_select_run_is_model : forall rr es, rrun_sel rr es = rrun es.
+Proof. exact rrun_sel_eq. Qed.
+
 Print Assumptions C20_conservation.
 Print Assumptions C20_sent_is_prefix.
 Print Assumptions C20_drains.
@@ -77,3 +82,5 @@ Print Assumptions C20_src_conservation.
 Print Assumptions C20_src_sent_is_prefix.
 Print Assumptions C20_src_queue_steps.
 Print Assumptions C20_src_queue_whole_calls.
+Print Assumptions C20_src_select_pass_is_model.
+Print Assumptions C20_src_select_run_is_model.
